@@ -97,8 +97,10 @@ Fixpoint nodup_b (l : list Z) : bool :=
   match l with [] => true | x :: l' => negb (existsb (Z.eqb x) l') && nodup_b l' end.
 
 Definition model_out (c : mcase) : sx := zset (run (case_cmodel c) (case_world c) (c_T c) (c_pat c) (c_dom c)).
+(* objects that are not listed have class 0, which must not be related to any class *)
+Definition class0_b (c : mcase) : bool := forallb (fun p : nat * nat => negb (Nat.eqb (fst p) 0)) (c_sub c).
 Definition in_F (c : mcase) : bool :=
-  F11 (case_cmodel c) (case_objcls c) (c_T c) (c_pat c) && sub_refl_b c && sub_trans_b c && typed_b c && nodup_b (c_dom c).
+  F11 (case_cmodel c) (case_objcls c) (c_T c) (c_pat c) && sub_trans_b c && typed_b c && class0_b c.
 (* what the harness asks for per case: model answer, Spec answer, inside F11?, number of conditions emitted *)
 Definition case_out (c : mcase) : sx :=
   SL [model_out c; spec_out c; SB (in_F c); SN (length (tr_alist (case_cmodel c) (c_T c) PRoot (c_pat c)))].
